@@ -96,11 +96,11 @@ func drawFmtBody(t *rapid.T, noisy bool, feat map[string]bool) (canon, noise []s
 			}
 			feat["blank"] = true
 		case 2:
-			v := pick(t, []string{`\b`, `pre`, `(?:a|b)`, `^x`}, "pv")
+			v := pick(t, []string{`\b`, `pre`, `(?:a|b)`, `^x`, `a  b`, "x\ty", `Content-Type:  x`}, "pv")
 			emit("##!^ "+v, lead()+"##!^"+gap()+v+trail())
 			feat["prefix"] = true
 		case 3:
-			v := pick(t, []string{`\b`, `post`, `[^a-z]`, `x$`}, "sv")
+			v := pick(t, []string{`\b`, `post`, `[^a-z]`, `x$`, `;  q`, "y\t z"}, "sv")
 			emit("##!$ "+v, lead()+"##!$"+gap()+v+trail())
 			feat["suffix"] = true
 		case 4:
@@ -121,6 +121,12 @@ func drawFmtBody(t *rapid.T, noisy bool, feat map[string]bool) (canon, noise []s
 		case 6:
 			c := "##!> include-except inc1 exc1"
 			nn := lead() + "##!>" + gap() + "include-except" + gap() + "inc1" + gap() + "exc1"
+			if chance(t, 40, "twoexc") {
+				// the spacing inside the list of exclude files is the writer's, format keeps it
+				g := gap()
+				c += g + "exc2"
+				nn += g + "exc2"
+			}
 			if chance(t, 40, "iepairs") {
 				c += " -- es y"
 				nn += gap() + "--" + gap() + "es y"
@@ -128,7 +134,7 @@ func drawFmtBody(t *rapid.T, noisy bool, feat map[string]bool) (canon, noise []s
 			emit(ind()+c, nn+trail())
 			feat["include-except"] = true
 		case 7, 8:
-			if depth < 3 {
+			if depth < 7 {
 				if chance(t, 70, "asm") {
 					emit(ind()+"##!> assemble", lead()+"##!>"+gap()+"assemble"+trail())
 				} else {
@@ -190,6 +196,7 @@ func drawFmtFile(t *rapid.T, w *World) FmtFile {
 	w.Put("crs/regex-assembly/include/inc1.ra", "abs\nbes\ncx\n")
 	w.Put("crs/regex-assembly/include/inc2.ra", "##!^ p\nqq\nrr\n")
 	w.Put("crs/regex-assembly/exclude/exc1.ra", "bes\n")
+	w.Put("crs/regex-assembly/exclude/exc2.ra", "cx\n")
 	w.Put("crs/regex-assembly/include/sql--kw.ra", "select\nunion\n")
 	w.Put("crs/regex-assembly/include/a-b.ra", "dash\n")
 	if chance(t, 25, "asinclude") {
